@@ -87,11 +87,43 @@ def main():
                 def close(s_):
                     pass
 
+            mic_bytes = open(job["mic"], "rb").read() if job.get("mic") else b""
+
+            class FakeIn:
+                def __init__(s_, bps):
+                    s_.bps, s_.pos, s_.closed = max(1, bps), 0, False
+
+                def is_active(s_):
+                    return not s_.closed and s_.pos < len(mic_bytes)
+
+                def is_stopped(s_):
+                    return False
+
+                def start_stream(s_):
+                    pass
+
+                def stop_stream(s_):
+                    pass
+
+                def close(s_):
+                    s_.closed = True
+
+                def read(s_, n, **kw_):
+                    d_ = mic_bytes[s_.pos:s_.pos + n * s_.bps]
+                    s_.pos += len(d_)
+                    return d_
+
             class PyAudio:
                 def get_format_from_width(s_, w):
                     return {1: 16, 2: 8, 4: 2}.get(w, 0)
 
                 def open(s_, **kw):
+                    if kw.get("input"):
+                        # the microphone: a finite device that stays active while samples remain
+                        width = {16: 1, 8: 2, 2: 4}.get(kw.get("format"), 0)
+                        idx_ = kw.get("input_device_index")
+                        fx.setdefault("mic_opens", []).append([kw.get("rate"), kw.get("channels"), width, -1 if idx_ is None else idx_, kw.get("frames_per_buffer")])
+                        return FakeIn(kw.get("channels", 1) * width)
                     fx["player_params"] = [kw.get("rate"), kw.get("channels"), kw.get("format")]
                     return FakeStream(kw)
 
